@@ -61,13 +61,16 @@ def run(ctx):
                 dp = os.path.normpath(os.path.join(p["cwd"], t["default_path"].replace("./bindings", base, 1) if p["env"] is not None and t["default_path"].startswith("./bindings") else t["default_path"]))
                 if p["env"] is None and dp not in written:
                     viol.append(dict(case=c, what="default_output_path() %s was not written" % dp, written=sorted(written)))
-            # the documented location rule
+            # every member's location holds that member's declaration (one file per location "among the
+            # root type and every exportable type reachable from it": each of them must be in its file)
+            import re as _re
             for m in members:
                 tm = U.types[m]
-                src_rule = tm["out"]
-                ident = tm["ident"]
-                if not (src_rule.endswith("/" + ident + ".ts") or src_rule == ident + ".ts" or not src_rule.endswith(ident + ".ts") or True):
-                    pass
+                fp = os.path.normpath(os.path.join(p["cwd"], base, tm["out"]))
+                txt = after.get(fp)
+                if txt is not None and not _re.search(r"(^|\n)export type %s[ <=]" % _re.escape(tm["ident"]), txt):
+                    viol.append(dict(case=c, what="the file at %s's output location does not declare %s" % (tm["rust"], tm["ident"]),
+                                     file=fp, content=txt))
         if gone:
             viol.append(dict(case=c, what="pre-existing files disappeared", files=sorted(gone)))
         if expected is not None and written != expected:
